@@ -35,7 +35,7 @@ def anchors(ctx):
     one('HMC.run_progress', name='run_progress', self_head='hmc::HMC', container='inherent')
     one('HMC.seed', name='set_seed', self_head='hmc::HMC', container='inherent')
     one('NUTS.chain_run', name='run', self_head='nuts::NUTSChain', container='inherent')
-    one('NUTS.chain_run_progress', name='run_progress', self_head='nuts::NUTSChain', container='inherent')
+    A['NUTS.chain_run_progress'] = ctx.helper('nuts.chain_run_progress')
     one('NUTS.step', name='step', self_head='nuts::NUTSChain', container='inherent')
     one('NUTS.run', name='run', self_head='nuts::NUTS', container='inherent')
     one('NUTS.run_progress', name='run_progress', self_head='nuts::NUTS', container='inherent')
@@ -47,7 +47,7 @@ def anchors(ctx):
     one('core.run_chain_progress', path='core::run_chain_progress')
     one('init_with_seed', path='core::init_with_seed')
     one('init_det', path='core::init_det')
-    one('_init', path='core::_init')
+    A['_init'] = ctx.helper('core._init')
     one('init', path='core::init')
     return A
 
